@@ -418,3 +418,265 @@ def find_conflict(unit, max_visits=3):
             p2 = path + ([(pc, op, tag)] if len(successors(instrs, pc)) > 1 else [])
             stack.append((succ, (f2, c2, a2, st2, k2), p2, visits))
     return None
+
+
+# ---------------------------------------------------------------------------------------------
+# C18: bounded model checking of "a Lookup executes with its name unbound and unreported"
+# ---------------------------------------------------------------------------------------------
+
+OUTSIDE_C18 = ('BuildMacro', 'CallBlock', 'Include', 'LoadBlocks', 'Enclose', 'ExportLocals', 'FastSuper')
+MAXF = 6
+
+
+def bmc_unbound_reads(instrs, exempt, steps=None):
+    """z3 BMC over the real instruction stream: program counter, frame stack (per frame: set of bound
+    names as a bit-vector, kind) are state variables, every conditional jump / iterator exhaustion is a
+    free boolean per step.  Returns (verdict, info, seconds): 'unsat' = within `steps` steps no path
+    reaches a Lookup of a non-exempt name that no visible frame binds; 'sat' = such a path (info has it)."""
+    n = len(instrs)
+    if any(i['op'] in OUTSIDE_C18 for i in instrs):
+        return 'skipped', 'outside the fragment', 0.0
+    names = sorted({i['arg'] for i in instrs if i['op'] in ('Lookup', 'StoreLocal') and isinstance(i.get('arg'), str)})
+    if not names:
+        return 'unsat', 'no names', 0.0
+    idx = {nm: j for j, nm in enumerate(names)}
+    w = len(names)
+    T = steps or min(3 * n + 12, 170)
+    s = z3.Solver()
+    s.set('timeout', 60000)
+    BV = lambda v: z3.BitVecVal(v, w)
+    pc = [z3.Int('pc%d' % t) for t in range(T + 1)]
+    F = [z3.Int('F%d' % t) for t in range(T + 1)]
+    b = [[z3.BitVec('b%d_%d' % (t, i), w) for i in range(MAXF)] for t in range(T + 1)]
+    k = [[z3.Int('k%d_%d' % (t, i)) for i in range(MAXF)] for t in range(T + 1)]
+    ch = [z3.Bool('ch%d' % t) for t in range(T)]
+    s.add(pc[0] == 0, F[0] == 1)
+    for i in range(MAXF):
+        s.add(b[0][i] == BV(0), k[0][i] == 0)
+    viol = []
+    overflow = []
+    for t in range(T):
+        npc = pc[t] + 1
+        nF = F[t]
+        nb = list(b[t])
+        nk = list(k[t])
+        here_viol = []
+        for p, ins in enumerate(instrs):
+            op, arg = ins['op'], ins.get('arg')
+            at = pc[t] == p
+            if op == 'Jump':
+                npc = z3.If(at, arg, npc)
+            elif op in ('JumpIfFalse', 'JumpIfFalseOrPop', 'JumpIfTrueOrPop'):
+                npc = z3.If(at, z3.If(ch[t], arg, p + 1), npc)
+            elif op == 'Iterate':
+                npc = z3.If(at, z3.If(ch[t], arg, p + 1), npc)
+                # a new item clears the locals of the innermost loop frame
+                for i in range(MAXF):
+                    inner = z3.And(k[t][i] != 0, i < F[t], *[z3.Or(j >= F[t], k[t][j] == 0) for j in range(i + 1, MAXF)])
+                    nb[i] = z3.If(z3.And(at, z3.Not(ch[t]), inner), BV(0), nb[i])
+            elif op == 'StoreLocal' and isinstance(arg, str):
+                bit = BV(1 << idx[arg])
+                for i in range(MAXF):
+                    nb[i] = z3.If(z3.And(at, F[t] - 1 == i), b[t][i] | bit, nb[i])
+            elif op in ('PushWith', 'PushLoop'):
+                kind = 0 if op == 'PushWith' else (2 if (arg & 1) else 1)
+                nF = z3.If(at, F[t] + 1, nF)
+                for i in range(MAXF):
+                    nb[i] = z3.If(z3.And(at, F[t] == i), BV(0), nb[i])
+                    nk[i] = z3.If(z3.And(at, F[t] == i), kind, nk[i])
+                overflow.append(z3.And(at, F[t] >= MAXF))
+            elif op in ('PopFrame', 'PopLoopFrame'):
+                nF = z3.If(at, F[t] - 1, nF)
+            elif op == 'Lookup' and isinstance(arg, str) and arg not in exempt:
+                if arg == 'loop':
+                    bound = z3.Or(*[z3.And(i < F[t], k[t][i] == 2) for i in range(MAXF)])
+                else:
+                    bit = BV(1 << idx[arg])
+                    bound = z3.Or(*[z3.And(i < F[t], (b[t][i] & bit) != BV(0)) for i in range(MAXF)])
+                    if 'loop' == arg:
+                        pass
+                here_viol.append(z3.And(at, z3.Not(bound)))
+        # past the end: stay
+        npc = z3.If(pc[t] >= n, pc[t], npc)
+        s.add(pc[t + 1] == npc, F[t + 1] == nF)
+        for i in range(MAXF):
+            s.add(b[t + 1][i] == nb[i], k[t + 1][i] == nk[i])
+        if here_viol:
+            viol.append(z3.Or(*here_viol))
+    if not viol:
+        return 'unsat', 'no candidate lookups', 0.0
+    # completeness of the bound: every path must have left the stream by step T
+    t0 = time.time()
+    s.push()
+    s.add(z3.Or(*viol))
+    r = s.check()
+    info = ''
+    if r == z3.sat:
+        m = s.model()
+        path = []
+        for t in range(T):
+            p = m.eval(pc[t]).as_long()
+            if p >= n:
+                break
+            path.append(p)
+        info = dict(path=path, choices=[bool(m.eval(c, model_completion=True)) for c in ch[:len(path)]])
+    s.pop()
+    verdict = str(r)
+    bound_ok = True
+    if verdict == 'unsat' and overflow:
+        # more than MAXF nested frames would fall outside the encoding
+        s.push()
+        s.add(z3.Or(*overflow))
+        if s.check() != z3.unsat:
+            bound_ok = False
+        s.pop()
+    return verdict, dict(info=info, steps=T, frame_depth_within_encoding=bound_ok, names=names), time.time() - t0
+
+
+def sym_unbound_reads(instrs, exempt, unroll=2):
+    """Symbolic execution with state merging over the loop-unrolled control-flow DAG of the real
+    instruction stream.  Every conditional jump / iterator exhaustion is a free boolean; each frame's set
+    of bound names is a bit-vector term built with ite() over those booleans; the query asks z3 whether
+    SOME assignment of the booleans reaches a Lookup of a non-exempt name that no visible frame binds.
+    Loops are unrolled `unroll` iterations (a third visit of a loop head is forced to exit).
+    Returns (verdict, info, seconds, stats)."""
+    n = len(instrs)
+    if any(i['op'] in OUTSIDE_C18 for i in instrs):
+        return 'skipped', 'outside the fragment', 0.0, {}
+    names = sorted({i['arg'] for i in instrs if i['op'] in ('Lookup', 'StoreLocal') and isinstance(i.get('arg'), str)})
+    if not names:
+        return 'unsat', dict(note='no names'), 0.0, {}
+    idx = {nm: j for j, nm in enumerate(names)}
+    w = len(names)
+    BV = lambda v: z3.BitVecVal(v, w)
+    # --- unrolled DAG: node = (pc, ctx) with ctx = tuple of (loop head pc, visits)
+    def bump(ctx, head):
+        d = dict(ctx)
+        d[head] = d.get(head, 0) + 1
+        return tuple(sorted(d.items()))
+    def visits(ctx, head):
+        return dict(ctx).get(head, 0)
+    edges = {}   # node -> [(succ node or None, tag)]
+    order = []
+    seen = set()
+    def dfs(node):
+        # iterative post-order
+        stack = [(node, 0)]
+        while stack:
+            nd, st = stack.pop()
+            if st == 0:
+                if nd in seen:
+                    continue
+                seen.add(nd)
+                pc, ctx = nd
+                succs = []
+                if pc < n:
+                    ins = instrs[pc]
+                    for spc, tag in successors(instrs, pc):
+                        if spc is None:
+                            continue
+                        sctx = ctx
+                        if ins['op'] == 'Iterate':
+                            if tag == 'fall':
+                                if visits(ctx, pc) >= unroll:
+                                    continue  # bound: the loop is taken to be exhausted now
+                                sctx = bump(ctx, pc)
+                            else:
+                                # leaving the loop forgets its counter (an enclosing loop may re-enter it)
+                                sctx = tuple(x for x in ctx if x[0] != pc)
+                        succs.append(((spc, sctx), tag))
+                edges[nd] = succs
+                stack.append((nd, 1))
+                for sn, _ in succs:
+                    if sn not in seen:
+                        stack.append((sn, 0))
+            else:
+                order.append(nd)
+    dfs((0, ()))
+    if len(order) > 6000:
+        return 'unknown', 'unrolled graph too large (%d nodes)' % len(order), 0.0, {}
+    order.reverse()  # topological
+    incoming = {nd: [] for nd in order}
+    reach = {}
+    state = {}
+    viol = []
+    nchoice = 0
+    entry = (0, ())
+    for nd in order:
+        pc, ctx = nd
+        if nd == entry:
+            reach[nd] = z3.BoolVal(True)
+            state[nd] = [(BV(0), 0)]
+        else:
+            inc = incoming[nd]
+            if not inc:
+                continue
+            depths = {len(st) for _, st in inc}
+            kinds = {tuple(k for _, k in st) for _, st in inc}
+            if len(depths) != 1 or len(kinds) != 1:
+                return 'unknown', 'frame stack differs between paths at pc %d (see C05)' % pc, 0.0, {}
+            reach[nd] = z3.Or(*[g for g, _ in inc])
+            depth = depths.pop()
+            merged = []
+            for lvl in range(depth):
+                term = inc[0][1][lvl][0]
+                for g, st in inc[1:]:
+                    term = z3.If(g, st[lvl][0], term)
+                merged.append((term, inc[0][1][lvl][1]))
+            state[nd] = merged
+        if pc >= n:
+            continue
+        ins = instrs[pc]
+        op, arg = ins['op'], ins.get('arg')
+        st = state[nd]
+        if op == 'Lookup' and isinstance(arg, str) and arg not in exempt:
+            if arg == 'loop':
+                bound = z3.BoolVal(any(k == 2 for _, k in st))
+            else:
+                bit = BV(1 << idx[arg])
+                bound = z3.Or(*[(bv & bit) != BV(0) for bv, _ in st]) if st else z3.BoolVal(False)
+            viol.append((nd, arg, z3.And(reach[nd], z3.Not(bound))))
+        succs = edges[nd]
+        cvar = None
+        if len(successors(instrs, pc)) > 1:
+            nchoice += 1
+            cvar = z3.Bool('ch_%d_%d' % (pc, nchoice))
+        for sn, tag in succs:
+            g = reach[nd]
+            if cvar is not None:
+                g = z3.And(g, cvar if tag == 'jump' else z3.Not(cvar))
+            st2 = list(st)
+            if op == 'StoreLocal' and isinstance(arg, str) and st2:
+                bv, kd = st2[-1]
+                st2[-1] = (bv | BV(1 << idx[arg]), kd)
+            elif op == 'PushWith':
+                st2.append((BV(0), 0))
+            elif op == 'PushLoop':
+                st2.append((BV(0), 2 if (arg & 1) else 1))
+            elif op in ('PopFrame', 'PopLoopFrame'):
+                if not st2:
+                    return 'unknown', 'frame underflow at pc %d (see C05)' % pc, 0.0, {}
+                st2.pop()
+            elif op == 'Iterate' and tag == 'fall':
+                # a new item clears the locals of the innermost loop frame
+                for lvl in range(len(st2) - 1, -1, -1):
+                    if st2[lvl][1] != 0:
+                        st2[lvl] = (BV(0), st2[lvl][1])
+                        break
+            if sn in incoming:
+                incoming[sn].append((g, st2))
+    stats = dict(dag_nodes=len(order), branch_booleans=nchoice, candidate_lookups=len(viol), names=len(names), unroll=unroll)
+    if not viol:
+        return 'unsat', dict(note='no candidate lookups'), 0.0, stats
+    s = z3.Solver()
+    s.set('timeout', 30000)
+    s.add(z3.Or(*[v for _, _, v in viol]))
+    t0 = time.time()
+    r = s.check()
+    dt = time.time() - t0
+    info = {}
+    if r == z3.sat:
+        m = s.model()
+        hit = [(nd[0], nm) for nd, nm, v in viol if z3.is_true(m.eval(v, model_completion=True))]
+        info = dict(lookups=hit[:4], choices={str(d): bool(m[d]) for d in m.decls()})
+    return str(r), info, dt, stats
